@@ -16,6 +16,9 @@ impl BlockingModel {
     pub fn has_blocked_clients(&self, db: usize, key: &[u8]) -> (r: bool)
         ensures r == (waiting(*self, db, key@).len() > 0),
     { unimplemented!() }
+    /// whether the wake-up queue is non-empty (reads only)
+    #[verifier::external_body]
+    pub fn has_pending_wakeups(&self) -> (r: bool) { unimplemented!() }
     /// one call wakes exactly the first waiter of the key (FIFO) if there is one
     #[verifier::external_body]
     pub fn notify_key_ready(&mut self, db: usize, key: &[u8])
